@@ -198,6 +198,7 @@ func NewWorld(t *Trace, mons []Monitor) *World {
 	appState, _ := BuildGenesis(&t.Knobs, w.Actors)
 	w.AppState = appState
 	w.Ref = &Node{Idx: 0, Cfg: DefaultRefCfg(), DB: dbm.NewMemDB()}
+	w.Ref.Cfg.Mempool = t.Knobs.RefMempool
 	w.Ref.Open()
 	w.Now = time.Unix(GenesisTS, 0).UTC()
 	w.Hdr = MakeHeader(0, w.Now, nil)
@@ -335,6 +336,7 @@ func (w *World) execBlock(b *BlockSpec) bool {
 	w.Hdr = MakeHeader(height, w.Now, prevHash)
 	rec := BlockRec{Height: height, Time: w.Now}
 	w.Ev("BLOCK %d t=%d", height, w.Now.UnixNano())
+	w.runNoise(b, -2, height)
 
 	var bresp abci.ResponseBeginBlock
 	if p, _ := safely(func() {
@@ -356,6 +358,7 @@ func (w *World) execBlock(b *BlockSpec) bool {
 		if tx == nil {
 			continue
 		}
+		w.runNoise(b, ti, height)
 		if ts.Check || ts.CheckOnly {
 			w.doCheck(tx)
 		}
@@ -394,6 +397,7 @@ func (w *World) execBlock(b *BlockSpec) bool {
 		}
 	}
 
+	w.runNoise(b, len(b.Txs), height)
 	var eresp abci.ResponseEndBlock
 	if p, _ := safely(func() { eresp = ref.App.EndBlock(abci.RequestEndBlock{Height: height}) }); p != "" {
 		w.halt("EndBlock", p)
@@ -403,6 +407,7 @@ func (w *World) execBlock(b *BlockSpec) bool {
 	for _, m := range w.Mons {
 		m.AfterEnd(w, eresp)
 	}
+	w.runNoise(b, -1, height)
 	var cresp abci.ResponseCommit
 	if p, _ := safely(func() { cresp = ref.App.Commit() }); p != "" {
 		w.halt("Commit", p)
@@ -426,6 +431,7 @@ func (w *World) execBlock(b *BlockSpec) bool {
 		m.AfterBlock(w)
 	}
 	w.runQueries(b, -1)
+	w.runNoise(b, -3, height)
 	if b.Export {
 		w.takeFork()
 	}
@@ -698,6 +704,9 @@ func (w *World) execOnReplica(n *Node, rec *BlockRec, crash *NodeEvent, ev *Node
 	}
 	hdr := MakeHeader(rec.Height, rec.Time, prevHash)
 	a := n.App
+	if ev != nil && ev.Proposal != "" {
+		w.replicaProposal(n, rec, ev.Proposal)
+	}
 	if p, _ := safely(func() { a.BeginBlock(abci.RequestBeginBlock{Header: hdr, LastCommitInfo: LastCommit()}) }); p != "" {
 		w.Violate("C01", "C01/replica-panic/begin", "node %d panicked in BeginBlock %d where the reference did not: %s", n.Idx, rec.Height, p)
 		n.Down = true
